@@ -506,4 +506,21 @@ example : (expected [pAll, pB] [[cmdA, cmdB]]).length = 3 := by decide
 example : delivered (runHistory [pAll, pB] [[cmdA, cmdB], [cmdA]]) =
     [(0, k1, mkRecord 1 [1]), (0, k2, mkRecord 2 [2]), (1, k2, mkRecord 2 [2]), (0, k1, mkRecord 1 [1])] := by decide
 
+/-- The dispatcher of the current source (regenerated skeletons): `run` starts ONE goroutine per
+    (written file, matching trigger) pair, and `fire` recovers a panicking plugin inside that
+    goroutine — so a plugin that panics cannot keep the other matching triggers from receiving the
+    records (the model's `run` delivers to every matching trigger independently). -/
+theorem skel_dispatcher_isolates_triggers :
+    Mkts.Extracted.Skel.executor_TriggerPluginDispatcher_run =
+      ["defer{", "func{", "send:tpd.done", "}", "call:(func() literal)", "}",
+       "range:tpd.c{", "range:tpd.triggerMatchers{", "call:tmatcher.Match", "if:tmatcher.Match(wr.key){",
+       "call:tpd.triggerWg.Add", "go{", "call:tpd.fire", "}", "}", "}", "}"] ∧
+    Mkts.Extracted.Skel.executor_TriggerPluginDispatcher_fire =
+      ["defer{", "func{", "call:tpd.triggerWg.Done", "if:r != nil{", "call:debug.Stack", "call:log.Error",
+       "}", "}", "call:(func() literal)", "}", "call:trig.Fire"] ∧
+    Mkts.Extracted.Skel.executor_TriggerPluginDispatcher_AppendRecord =
+      ["if:tpd.m == nil{", "set:tpd.m", "}", "setidx:tpd.m"] ∧
+    Mkts.Extracted.Skel.executor_TriggerPluginDispatcher_DispatchRecords =
+      ["range:tpd.m{", "send:tpd.c", "}", "set:tpd.m"] := by decide
+
 end Mkts.Props.C32
